@@ -241,7 +241,7 @@ class Peer:
     """The reference accessory plus the scenario's adversary, answering the requests it ACTUALLY receives:
     the controller's ephemeral public key is taken from the M1 on the wire (no dependence on a key seam)."""
 
-    def __init__(self, s: Scn, U=None, ctrl_name=CTRL_EPH):
+    def __init__(self, s: Scn, U=None, ctrl_name=CTRL_EPH, live_session=None):
         self.s, self.ctrl_name = s, ctrl_name
         self.U = U = U or Universe("c01")
         acc_id, ios_id = IDS[s.cfg]
@@ -269,6 +269,9 @@ class Peer:
             if s.resume.get("ctrl"):
                 sid, n = s.resume["ctrl"]
                 self.rs_ctrl = (lit(sid), prev_secret(U, n))
+        if live_session is not None:     # (sid bytes, secret bytes) the accessory remembers from an earlier LIVE session
+            self.session = (lit(live_session[0]), lit(live_session[1]))
+            self.new_sid = lit(live_session[2])
         self.acc = VerifyAccessory(U, a["acc_id"], a["ltsk"], a["eph"], a["ctrl_id"], U.edpub(a["ctrl_ltsk"]),
                                    self.session, self.new_sid)
         ctx.acc, ctx.scn = self.acc, s
@@ -815,9 +818,14 @@ async def glue_ip(s: Scn, peer):
                 return "fail", None, type(e).__name__
     finally:
         ipc.HomeKitConnection._connect_once = orig
-    # functional key check: a request frame must open under the accessory's c2a key, and a
-    # response sealed under its a2c key must be accepted
     want = R.session_keys(peer.acc.secret, "ip") if peer.acc.secret else None
+    ok = await _ip_functional(conn, frames, want) if want else False
+    return "done", ok, None
+
+
+async def _ip_functional(conn, frames, want):
+    """functional key check: a request frame must open under the accessory's c2a key, and a
+    response sealed under its a2c key must be accepted"""
     frames.clear()
     task = asyncio.ensure_future(conn.protocol.send_bytes(b"GET /x HTTP/1.1\r\n\r\n"))
     await asyncio.sleep(0)
@@ -841,7 +849,7 @@ async def glue_ip(s: Scn, peer):
         task.cancel()
         with contextlib.suppress(BaseException):
             await task
-    return "done", ok, None
+    return ok
 
 
 async def glue_coap(s: Scn, peer):
@@ -947,6 +955,313 @@ async def glue_ble(s: Scn, peer):
     return "done", ok, None
 
 
+# ------------------------------------------------------------------ sequences of sessions on ONE live connection object
+N0 = bytes(4) + (0).to_bytes(8, "little")
+
+
+def _transcript(peer, ended=None):
+    sec = peer.acc.secret
+    return dict(m1=peer.m1.hex() if peer.m1 else None, m2=peer.m2.hex() if peer.m2 else None,
+                m3=peer.m3.hex() if peer.m3 else None, m4=peer.m4.hex() if peer.m4 else None,
+                accessory_state=peer.acc.state,
+                accessory_keys={k: v.hex() for k, v in R.session_keys(sec, peer.s.transport).items()} if sec else None,
+                session_then_ended_by=ended)
+
+
+async def coap_sequence(mode):
+    """One CoAPHomeKitConnection object: pair-verify, the session ends the way `mode` says, pair-verify again.
+    After EVERY successful verify all three keys (read, write, event) must be this session's and the previous
+    session's keys must be dead."""
+    import aiohomekit.controller.coap.connection as cc
+    from aiocoap.error import NetworkError
+    from aiocoap.numbers.codes import Code
+    hub = dict(peer=None, fail=None)
+    loop = asyncio.get_running_loop()
+
+    class Resp:
+        def __init__(self, payload, code=Code.CHANGED):
+            self.payload, self.code = payload, code
+
+    class Req:
+        def __init__(self, resp):
+            self.response = loop.create_future()
+            if resp is not None:
+                self.response.set_result(resp)
+
+    class FakeCtx:
+        def request(self, message):
+            f = hub["fail"]
+            if f == "network-error":
+                raise NetworkError("unreachable")
+            if f == "timeout":
+                return Req(None)
+            if f == "not-found":
+                return Req(Resp(b"", Code.NOT_FOUND))
+            if f == "garbage-response":
+                return Req(Resp(bytes(range(40))))
+            return Req(Resp(hub["peer"].respond(bytes(message.payload))))
+
+        async def shutdown(self):
+            pass
+
+    class FakeContext:
+        @staticmethod
+        async def create_server_context(root, bind=None):
+            return FakeCtx()
+
+        @staticmethod
+        async def create_client_context():
+            return FakeCtx()
+
+    conn = cc.CoAPHomeKitConnection(None, "::1", 5683)
+    saved = cc.Context
+    cc.Context = FakeContext
+    sessions, problems = [], []
+    old = None
+    try:
+        plan = [("honest", {}, mode)]
+        if mode == "failed-verify-between":
+            plan = [("honest", {}, "network-error"), ("wrong-ltsk", dict(ltsk=OTHER_LTSK), None)]
+        plan.append(("honest", {}, None))
+        for k, (label, accd, end) in enumerate(plan):
+            peer = Peer(Scn("session-sequence", "coap", 0, acc=accd, honest=not accd))
+            hub["peer"], hub["fail"] = peer, None
+            exc = None
+            try:
+                await conn.do_pair_verify(peer.pd)
+            except Exception as e:  # noqa: BLE001
+                exc = type(e).__name__
+            t = _transcript(peer, end)
+            t.update(label=label, verify_exception=exc)
+            sessions.append(t)
+            if accd:
+                if exc is None:
+                    problems.append(f"session {k}: verify against a wrong-LTSK accessory succeeded")
+                continue
+            if exc is not None or peer.acc.secret is None:
+                problems.append(f"session {k}: honest pair-verify on the live connection failed ({exc})")
+                break
+            want = R.session_keys(peer.acc.secret, "coap")
+            ec = conn.enc_ctx
+            checks = {}
+            if old is not None:
+                try:
+                    ec.decrypt_event(R.aead_seal(old["evt"], N0, b"", b"stale"))
+                    checks["stale_event_key_accepted"] = True
+                    problems.append(f"session {k}: an event sealed under the PREVIOUS session's event key is accepted")
+                except Exception:  # noqa: BLE001
+                    checks["stale_event_key_accepted"] = False
+            for name, fn in (("event", lambda: ec.decrypt_event(R.aead_seal(want["evt"], N0, b"", b"evt")) == b"evt"),
+                             ("write", lambda: R.aead_open(want["c2a"], N0, b"", ec.encrypt(b"ping")) == b"ping"),
+                             ("read", lambda: ec.decrypt(R.aead_seal(want["a2c"], N0, b"", b"pong")) == b"pong")):
+                try:
+                    okk = bool(fn())
+                except Exception:  # noqa: BLE001
+                    okk = False
+                checks[name + "_key_is_this_sessions"] = okk
+                if not okk:
+                    problems.append(f"session {k}: the controller's {name} key is not the one derived from this exchange")
+            t["checks"] = checks
+            old = want
+            # ---- the session ends
+            if end in ("network-error", "timeout", "not-found", "garbage-response"):
+                hub["fail"] = end
+                try:
+                    await conn.enc_ctx.post_bytes(b"\x00\x01\x02", timeout=0.02)
+                except Exception as e:  # noqa: BLE001
+                    t["end_exception"] = type(e).__name__
+                hub["fail"] = None
+            elif end == "reconnect-soon":
+                await conn.reconnect_soon()
+    finally:
+        cc.Context = saved
+    return sessions, problems
+
+
+async def ip_sequence(mode):
+    """One SecureHomeKitConnection object, _connect_once twice (as the reconnect loop does)."""
+    import aiohomekit.controller.ip.connection as ipc
+    hub = dict(peer=None, frames=None)
+
+    class FakeTransport:
+        def __init__(self):
+            self.frames = []
+
+        def write(self, data):
+            self.frames.append(bytes(data))
+
+        def writelines(self, lines):
+            self.frames.append(b"".join(bytes(x) for x in lines))
+
+        def close(self):
+            pass
+
+        def write_eof(self):
+            pass
+
+        def is_closing(self):
+            return False
+
+        def set_protocol(self, p):
+            pass
+
+        def get_extra_info(self, *a, **k):
+            return None
+
+    class Resp:
+        def __init__(self, body):
+            self.body = body
+
+    async def fake_post(target, body, content_type=None):
+        return Resp(hub["peer"].respond(bytes(body)))
+
+    async def fake_base_connect(self):
+        self.transport = FakeTransport()
+        self.protocol = ipc.InsecureHomeKitProtocol(self)
+        self.connected_host = "127.0.0.1"
+
+    peer0 = Peer(Scn("session-sequence", "ip", 0, honest=True))
+    conn = ipc.SecureHomeKitConnection(None, dict(peer0.pd, AccessoryIP="127.0.0.1", AccessoryPort=1))
+    conn.post = fake_post
+    orig = ipc.HomeKitConnection._connect_once
+    ipc.HomeKitConnection._connect_once = fake_base_connect
+    sessions, problems = [], []
+    try:
+        plan = [("honest", {})] + ([("wrong-ltsk", dict(ltsk=OTHER_LTSK))] if mode == "failed-verify-between" else []) + [("honest", {})]
+        for k, (label, accd) in enumerate(plan):
+            peer = Peer(Scn("session-sequence", "ip", 0, acc=accd, honest=not accd))
+            hub["peer"] = peer
+            exc = None
+            try:
+                await conn._connect_once()
+            except Exception as e:  # noqa: BLE001
+                exc = type(e).__name__
+            t = _transcript(peer, "reconnect")
+            t.update(label=label, verify_exception=exc)
+            sessions.append(t)
+            if accd:
+                if exc is None:
+                    problems.append(f"session {k}: verify against a wrong-LTSK accessory succeeded")
+                continue
+            if exc is not None or peer.acc.secret is None:
+                problems.append(f"session {k}: honest pair-verify on the live connection failed ({exc})")
+                break
+            okk = await _ip_functional(conn, conn.transport.frames, R.session_keys(peer.acc.secret, "ip"))
+            t["checks"] = dict(read_and_write_keys_are_this_sessions=okk)
+            if not okk:
+                problems.append(f"session {k}: the installed read/write keys are not the ones derived from this exchange")
+    finally:
+        ipc.HomeKitConnection._connect_once = orig
+    return sessions, problems
+
+
+async def ble_sequence(mode):
+    """One BlePairing object, _async_pair_verify repeatedly: the second verify offers a resume of the first."""
+    import aiohomekit.controller.ble.client as bc
+    import aiohomekit.controller.ble.pairing as bp
+    hub = dict(peer=None)
+
+    async def fake_char_write(client, ek, dk, handle, iid, body):
+        return hub["peer"].respond(bytes(body))
+
+    class FakeClient:
+        address = "00:00"
+
+        async def get_characteristic(self, *a, **k):
+            return object()
+
+        async def get_characteristic_iid(self, *a, **k):
+            return 1
+
+    peer0 = Peer(Scn("session-sequence", "ble", 0, honest=True))
+    p = bp.BlePairing.__new__(bp.BlePairing)
+    p._ble_request_lock = asyncio.Lock()
+    p.client = FakeClient()
+    p.pairing_data = peer0.pd
+    p._session_id = p._derive = p._encryption_key = p._decryption_key = None
+    orig = bc.char_write
+    bc.char_write = fake_char_write
+    sessions, problems = [], []
+    last = old = None
+    try:
+        plan = [("honest", {}, False)]
+        if mode == "failed-verify-between":
+            plan.append(("wrong-ltsk", dict(ltsk=OTHER_LTSK), False))
+        plan.append(("honest", {}, mode != "accessory-forgot"))
+        plan.append(("honest", {}, True))
+        for k, (label, accd, remembers) in enumerate(plan):
+            live = None
+            if remembers and last is not None:
+                live = (last.acc.sid, last.acc.secret, bytes([0x40 + k]) * 8)
+            peer = Peer(Scn("session-sequence", "ble", 0, acc=accd, honest=not accd), live_session=live)
+            hub["peer"] = peer
+            exc = None
+            try:
+                await p._async_pair_verify()
+            except Exception as e:  # noqa: BLE001
+                exc = type(e).__name__
+            t = _transcript(peer, "disconnect")
+            t.update(label=label, verify_exception=exc, accessory_remembers_previous_session=bool(live))
+            sessions.append(t)
+            if accd:
+                if exc is None:
+                    problems.append(f"session {k}: verify against a wrong-LTSK accessory succeeded")
+                continue
+            if exc is not None or peer.acc.secret is None:
+                problems.append(f"session {k}: honest pair-verify on the live pairing object failed ({exc})")
+                break
+            if live and peer.acc.state != "resumed":
+                problems.append(f"session {k}: the controller did not offer a valid resume of the previous session")
+            want = R.session_keys(peer.acc.secret, "ble")
+            checks = {}
+            if old is not None:
+                try:
+                    p._decryption_key.decrypt(R.aead_seal(old["a2c"], N0, b"", b"stale"))
+                    checks["stale_read_key_accepted"] = True
+                    problems.append(f"session {k}: data sealed under the PREVIOUS session's key is accepted")
+                except Exception:  # noqa: BLE001
+                    checks["stale_read_key_accepted"] = False
+            try:
+                okk = (R.aead_open(want["c2a"], N0, b"", bytes(p._encryption_key.encrypt(b"ping"))) == b"ping"
+                       and bytes(p._decryption_key.decrypt(R.aead_seal(want["a2c"], N0, b"", b"pong"))) == b"pong")
+            except Exception:  # noqa: BLE001
+                okk = False
+            checks["read_and_write_keys_are_this_sessions"] = okk
+            if not okk:
+                problems.append(f"session {k}: the installed read/write keys are not the ones derived from this exchange")
+            t["checks"] = checks
+            last, old = peer, want
+    finally:
+        bc.char_write = orig
+    return sessions, problems
+
+
+SEQUENCE_MODES = dict(
+    coap=["network-error", "timeout", "not-found", "garbage-response", "reconnect-soon", "verify-while-connected",
+          "failed-verify-between"],
+    ip=["reconnect", "failed-verify-between"],
+    ble=["resume", "accessory-forgot", "failed-verify-between"])
+
+
+def sequence_pass():
+    out = []
+
+    async def main():
+        for tr, fn in (("coap", coap_sequence), ("ip", ip_sequence), ("ble", ble_sequence)):
+            for mode in SEQUENCE_MODES[tr]:
+                sessions, problems = await fn(mode)
+                out.append((tr, mode, sessions, problems))
+    import logging
+    lg = logging.getLogger("aiohomekit.controller.coap.connection")
+    lvl = lg.level
+    lg.setLevel(logging.CRITICAL + 1)      # the library logs its (expected) resynchronisation failures at ERROR
+    try:
+        asyncio.run(main())
+    finally:
+        lg.setLevel(lvl)
+    return out
+
+
 def glue_pass(scns, recs):
     """second pass over selected scenarios through the real transport coroutines, each against a fresh,
     live reference accessory (the replies are computed for the requests actually received)"""
@@ -972,6 +1287,201 @@ def glue_pass(scns, recs):
                 out.append(await glue_coap(s, Peer(s)))
     asyncio.run(main())
     return out
+
+
+# ------------------------------------------------------------------ extraction cross-check (vm_compute)
+class _TermToGallina:
+    """The drivers' term syntax (ocaml/drv_c01.ml parse_msg) rendered as a Gallina expression of type msg.
+    Mirrors the OCaml parser case by case: x<hex> is a literal, dh/srpkc/srpks call the model's evaluators."""
+
+    def __init__(self, s):
+        self.s, self.i = s, 0
+
+    def peek(self):
+        return self.s[self.i] if self.i < len(self.s) else "\0"
+
+    def eat(self, c):
+        if self.peek() != c:
+            raise ValueError(f"expected {c} at {self.i} in {self.s[:80]}")
+        self.i += 1
+
+    def while_(self, ok):
+        st = self.i
+        while self.i < len(self.s) and ok(self.s[self.i]):
+            self.i += 1
+        return self.s[st:self.i]
+
+    def number(self):
+        d = self.while_(str.isdigit)
+        if not d:
+            raise ValueError("number")
+        return f"{int(d)}%N"
+
+    def msg(self):
+        self.eat("[")
+        if self.peek() == "]":
+            self.i += 1
+            return "(@nil atom)"
+        parts = [self.elem()]
+        while self.peek() == ";":
+            self.i += 1
+            parts.append(self.elem())
+        self.eat("]")
+        return "(" + " ++ ".join(parts) + ")"
+
+    def elem(self):
+        if self.peek() == "x":
+            self.i += 1
+            h = self.while_(lambda c: c in "0123456789abcdef")
+            return "(lit [" + "; ".join(f"{b}%N" for b in bytes.fromhex(h)) + "])"
+        ident = self.while_(str.isalpha)
+        self.eat("(")
+        sig = {"pub": ("[APub {}]", "n"), "sig": ("[ASig {} {}]", "nm"), "aead": ("[AAead {} {} {} {}]", "mmmm"),
+               "dh": ("(s_dh {} {})", "nm"), "hkdf": ("[AHkdf {} {} {} {}]", "mmmn"), "hash": ("[AHash {}]", "m"),
+               "tlv": ("[ATlv {} {}]", "nm"), "junk": ("[AJunk {} {}]", "nn"), "srpA": ("[ASrpA {}]", "n"),
+               "srpB": ("[ASrpB {} {} {}]", "nmm"), "srpkc": ("(srp_kc {} {} {} {})", "mmnm"),
+               "srpks": ("(srp_ks {} {} {} {})", "mmnm")}.get(ident)
+        if sig is None:
+            raise ValueError("unknown constructor " + ident)
+        args = []
+        for k, kind in enumerate(sig[1]):
+            if k:
+                self.eat(",")
+            args.append(self.number() if kind == "n" else self.msg())
+        self.eat(")")
+        return sig[0].format(*args)
+
+
+def coq_msg(s):
+    p = _TermToGallina(s)
+    m = p.msg()
+    if p.i != len(s):
+        raise ValueError("trailing input in " + s[:80])
+    return m
+
+
+def coq_hexbytes(h):
+    return "[" + "; ".join(f"{b}%N" for b in (b"" if h == "-" else bytes.fromhex(h))) + "]"
+
+
+def coq_reply(s):
+    if s == "honest":
+        return "None"
+    if s == ".":
+        return "(Some (@nil sitem))"
+    items = []
+    for it in s.split("|"):
+        t, m = it.split("=", 1)
+        items.append(f"({int(t)}%N, {coq_msg(m)})")
+    return "(Some [" + "; ".join(items) + "])"
+
+
+def coq_resume(sid, secret):
+    if sid == "-" or secret == "-":
+        return "None"
+    return f"(Some {{| rs_sid := {coq_msg(sid)}; rs_secret := {coq_msg(secret)} |}})"
+
+
+def coq_request(line):
+    """one `pv ...` driver request as the Gallina term `show_pv ...` (same arguments, same order as drv_c01.ml)"""
+    w = line.split(" ")
+    if len(w) != 19 or w[0] != "pv":
+        raise ValueError("not a pv request")
+    (_, tr, acc_id, ltpk, ios_id, ltsk, eph, rs_sid, rs_secret, ac_id, ac_ltsk, ac_eph, ctrl_id, ctrl_ltpk,
+     ss_sid, ss_secret, new_sid, m2, m4) = w
+    pd = (f"{{| pd_acc_id := {coq_hexbytes(acc_id)}; pd_acc_ltpk := {coq_msg(ltpk)}; pd_ios_id := {coq_hexbytes(ios_id)}; "
+          f"pd_ios_ltsk := {int(ltsk)}%N |}}")
+    a = (f"{{| ac_id := {coq_hexbytes(ac_id)}; ac_ltsk := {int(ac_ltsk)}%N; ac_eph := {int(ac_eph)}%N; "
+         f"ac_ctrl_id := {coq_hexbytes(ctrl_id)}; ac_ctrl_ltpk := {coq_msg(ctrl_ltpk)}; "
+         f"ac_session := {coq_resume(ss_sid, ss_secret)}; ac_new_sid := {coq_msg(new_sid)} |}}")
+    return (f"(show_pv {dict(ip='TIP', ble='TBLE', coap='TCOAP')[tr]} {pd} {int(eph)}%N {coq_resume(rs_sid, rs_secret)} "
+            f"{a} {coq_reply(m2)} {coq_reply(m4)})")
+
+
+XC_PRELUDE = """From Coq Require Import List NArith Bool.
+From AHK Require Import Lib.Res Lib.ByteStr Model.Tlv Model.Sym Model.Verify.
+Import ListNotations.
+Fixpoint items_eqb (a b : list sitem) : bool :=
+  match a, b with
+  | [], [] => true
+  | (k, v) :: r, (k', v') :: s => N.eqb k k' && msg_eqb v v' && items_eqb r s
+  | _, _ => false
+  end.
+Definition show_fail (f : fail) : N :=
+  match f with FInvalid => 0 | FErr _ => 1 | FAuthTag => 2 | FParse => 3 | FWrongId => 4 | FSig => 5 | FProof => 6
+  | FCrash => 7 end%N.
+Definition show_ob (o : option bool) : N := match o with None => 2 | Some true => 1 | Some false => 0 end%N.
+Definition show_pv (tr : transport) (pd : pairing) (eph : N) (rs : option resume_st) (a : acc)
+           (m2x m4x : option (list sitem)) : list N :=
+  let t := pv_exchange tr pd eph rs a m2x m4x in
+  [ (if items_eqb (tr_m1 t) (m1_plain eph) then 0 else 1);
+    (match snd (acc_m2 a (tr_m1 t)) with AVerify _ _ => 0 | AResumed _ _ => 1 | ARejected => 2 end);
+    (match m2x with None => 1 | Some x => if items_eqb x (tr_m2_spec t) then 1 else 0 end);
+    (match tr_result t with PDone _ _ => 0 | PSend _ _ => 1 | PUnsupported => 2 | PFail f => 10 + show_fail f end);
+    show_ob (tr_m3_accepted t); show_ob (tr_keys_agree t) ]%N.
+"""
+XC_FAIL = ["invalid", "error-item", "authtag", "parse", "wrongid", "signature", "proof", "crash"]
+
+
+def xc_expected(answer):
+    """the driver's answer line as the list of numbers show_pv yields (None if it is not an answer line)"""
+    try:
+        p = dict(x.split("=", 1) for x in answer.split(" "))
+        res = p["result"]
+        rc = 10 + XC_FAIL.index(res[5:]) if res.startswith("fail:") else {"done": 0, "send": 1, "unsupported": 2}[res]
+        ob = {"-": 2, "1": 1, "0": 0}
+        if set(p) != {"m1", "acc", "m2spec", "result", "m3acc", "keys"}:
+            return None
+        return [{"plain": 0, "resume": 1}[p["m1"]], {"verify": 0, "resumed": 1, "rejected": 2}[p["acc"]],
+                {"0": 0, "1": 1}[p["m2spec"]], rc, ob[p["m3acc"]], ob[p["keys"]]]
+    except (KeyError, ValueError):
+        return None
+
+
+def xc_sample(pairs, n=24):
+    """deterministic sample of the run's (request, answer) stream: the shortest request of every distinct driver
+    answer (rotating over the transports), topped up with further (transport, answer, resume-state, substituted-M4)
+    classes, evenly spaced"""
+    groups = {}
+    for req, ans in pairs:
+        w = req.split(" ")
+        if len(w) != 19 or len(req) > 6000:
+            continue
+        k = (ans, w[1], w[7] != "-", w[18] != "honest")
+        if k not in groups or len(req) < len(groups[k][0]):
+            groups[k] = (req, ans)
+    picked = []
+    for i, ans in enumerate(sorted({k[0] for k in groups})):
+        ks = sorted(k for k in groups if k[0] == ans)
+        pref = [k for k in ks if k[1] == TRANSPORTS[i % 3]] or ks
+        picked.append(pref[0])
+    picked = picked[:n]
+    rest = [k for k in sorted(groups) if k not in picked]
+    room = n - len(picked)
+    if room > 0 and rest:
+        step = max(1, len(rest) // room)
+        picked += rest[::step][:room]
+    return [groups[k] for k in picked]
+
+
+def vm_crosscheck(ctx, sample):
+    """Evaluate the sampled requests inside Coq (`Eval vm_compute`) through the SAME model functions the extracted
+    driver calls (pv_exchange, acc_m2, m1_plain, msg_eqb, s_dh, srp_kc, srp_ks) and compare every field of the
+    driver's answer.  Takes extraction + ocaml/drv.ml + ocaml/drv_c01.ml out of the single-point-of-trust position.
+    Returns (number of requests evaluated, list of disagreements)."""
+    import re
+    from common import coq_eval
+    body = [XC_PRELUDE] + [f"Eval vm_compute in {coq_request(req)}." for req, _ in sample]
+    out = coq_eval(ctx["verif"], "C01", "crosscheck", "\n".join(body) + "\n", timeout=120)
+    blocks = out.split("= ")[1:]
+    bad = []
+    if len(blocks) != len(sample):
+        bad.append(dict(request=None, driver=None, vm_compute=f"{len(blocks)} results for {len(sample)} requests"))
+    for (req, ans), blk in zip(sample, blocks):
+        got = [int(x) for x in re.findall(r"(\d+)%N", blk.split(":")[0])]
+        if xc_expected(ans) != got:
+            bad.append(dict(request=req, driver=ans, vm_compute=got))
+    return len(blocks), bad
 
 
 # ------------------------------------------------------------------ run
@@ -1023,7 +1533,10 @@ def run(ctx):
         # --replay <file>: re-run exactly the scenario a replay file names (deterministic keys), all three ways
         import json
         want = json.load(open(ctx["replay"])).get("scenario")
-        scns = [s for s in scns if s.ident() == want] or \
+        ctx = dict(ctx, replay_scenario=want)
+        if str(want).startswith("session-sequence:"):
+            scns = [s for s in scns if s.family == "honest" and s.cfg == 0][:1]
+        scns = [s for s in scns if s.ident() == want or str(want).startswith("session-sequence:")] or \
                [s for s in gen_scenarios("thorough", rng(ctx["seed"], "c01")) if s.ident() == want]
         if not scns:
             return dict(coverage=dict(evaluations=0, distinct_nontrivial=0, rule="replay", samples=[]),
@@ -1043,7 +1556,8 @@ def run(ctx):
             h.append(dict(step=s_.detail, pairing_data=r_["pd"], m1=r_["m1"].hex(), m2=r_["m2"].hex(),
                           m3=r_["m3"].hex() if r_["m3"] else None, m4=r_["m4"].hex() if r_["m4"] else None, impl=r_["impl"]))
     lines = [r["model_req"] for r in recs if r["model_req"]]
-    answers = iter(drv.batch(lines))
+    model_answers = drv.batch(lines)
+    answers = iter(model_answers)
     n_model = 0
     exp_lists = set()
     for s, rec in zip(scns, recs):
@@ -1107,6 +1621,26 @@ def run(ctx):
             viol.append(violation("model-mismatch:" + s.family + ":" + s.transport,
                                   f"model and implementation disagree on {s.ident()}: impl '{impl}' model '{mcoarse}'",
                                   False, **replay_payload(s, rec, model_line)))
+    # ---- third pass: sequences of sessions on one live connection / pairing object
+    n_seq = 0
+    if not ctx.get("replay") or str(ctx.get("replay_scenario", "")).startswith("session-sequence:"):
+        for tr_, mode, sessions, problems in sequence_pass():
+            n_seq += 1
+            cov.case(f"sequence|{tr_}|{mode}", True, transport="sequence-" + tr_, family="session-sequence",
+                     sample=dict(scenario=f"session-sequence:{tr_}:{mode}", sessions=len(sessions), problems=problems),
+                     outcome="ok" if not problems else "violated")
+            if problems:
+                viol.append(violation(f"session-sequence:{tr_}:{mode}",
+                                      f"sessions on ONE live {tr_} connection object (session ended by: {mode}): after every "
+                                      "successful pair-verify all derived keys must be this exchange's and the previous "
+                                      "session's keys must be dead: " + "; ".join(problems), True,
+                                      scenario=f"session-sequence:{tr_}:{mode}", transport=tr_, sessions=sessions,
+                                      how_to_replay="one connection object (CoAPHomeKitConnection.do_pair_verify / "
+                                                    "SecureHomeKitConnection._connect_once / BlePairing._async_pair_verify); run "
+                                                    "the listed sessions in order against an accessory answering m2/m4, end each "
+                                                    "session as stated, then check encrypt/decrypt/decrypt_event against "
+                                                    "accessory_keys of the LAST session"))
+    cov.extra["session_sequences"] = n_seq
     # ---- second pass: the real transport coroutines
     sel = [(s, r) for s, r in zip(scns, recs)
            if s.family in GLUE_FAMILIES or (tier == "thorough" and not s.family.startswith("m2:raw"))]
@@ -1130,6 +1664,15 @@ def run(ctx):
                                   f"accessory's keys (Control-Write / Control-Read / Event labels) on {s.ident()}", True,
                                   **replay_payload(s, rec, None, dict(glue="keys installed by the real transport code fail the "
                                                                            "functional check against accessory_keys"))))
+    # ---- extraction cross-check: a sample of the same requests evaluated by the Coq kernel's VM
+    if not ctx.get("replay"):
+        n_xc, xc_bad = vm_crosscheck(ctx, xc_sample(list(zip(lines, model_answers))))
+        cov.extra["vm_compute_crosscheck"] = {"requests": n_xc, "disagreements": len(xc_bad)}
+        if xc_bad:
+            viol.append(violation("extraction-vs-vm_compute",
+                                  f"the extracted driver and vm_compute disagree on {len(xc_bad)} of {n_xc} sampled requests "
+                                  f"(first: driver '{xc_bad[0]['driver']}', vm_compute {xc_bad[0]['vm_compute']})", False,
+                                  disagreements=xc_bad[:5]))
     cov.extra["exhaustive"] = True
     cov.extra["exhaustive_part"] = ("every single-bit flip of every byte of the honest M2 (IP; BLE bits 0 and 7; thorough: all "
                                "transports, all bits) and of M4, two substitutions per M2 byte, every signature transcript "
